@@ -76,7 +76,7 @@ Theorem C13_wrong_dtype_refuted : exists st count inits st' r log,
   cell_at (cur_table st) 1 1 = Some (Iv 2) /\ cell_at (cur_table st') 1 1 = Some (Bv true).
 Proof. exists fl_state, 1%nat, [fl_init]. eexists. eexists. eexists. vm_compute. repeat split; reflexivity. Qed.
 
-(* (2) NEW finding (reported, class kept out of the generator): an int64 cell beyond 2^53 does not survive the
+(* (2) finding F-Z (open): an int64 cell beyond 2^53 does not survive the
    float64 round trip of reindex + a perfectly well-behaved initializer: 2^53+1 comes back as 2^53 *)
 Definition big_state : pstate := mkpstate (Some (mktbl 1 [mkcol 1 DInt [Iv 9007199254740993]])) steady.
 Definition good_int_init : initializer :=
